@@ -163,7 +163,7 @@ macro_rules! new_sample_type {
                 if cfg!(debug_assertions) {
                     $T::new(self.0 * other.0).expect("arithmetic operation overflowed")
                 } else {
-                    $T::from(self.0 * other.0)
+                    $T::from(self.0.wrapping_mul(other.0))
                 }
             }
         }
